@@ -1,9 +1,420 @@
-//! c16 -- placeholder; implemented by the owning property module.
-use serde_json::{json, Value};
+//! c16 -- machine driver for the snapshot property: `CoreRuntime` from a ROM image + config, host events,
+//! step, observe, `save_snapshot` to a path, `load_snapshot` from a path into a fresh runtime.
+//!
+//! Thin adapter: everything goes through the crate's public API (`CoreRuntime::{new, load_rom,
+//! power_on_reset, step, save_snapshot, load_snapshot, press_on_key, release_on_key, get_reg, set_reg}`,
+//! `KeyboardMatrix::{press_matrix_code, release_matrix_code, fifo_snapshot, snapshot_state}`,
+//! `LcdHal::export_snapshot`, `MemoryImage::{load, internal_slice, external_slice}` and the `pub` fields of
+//! `TimerContext`).  Observation never changes the machine: the memory access counters touched by
+//! `MemoryImage::load` are put back with `set_memory_counts`.
+//!
+//! Request: {"cmd":"c16.ops","ops":[{"op":...}, ...]}  ->  {"ok":true,"results":[...]} (one result per op).
+use crate::util::{err, get_bool, get_str, get_u32, get_u64};
+use sc62015_core::llama::state::PowerState;
+use sc62015_core::snapshot::{pack_registers, unpack_registers};
+use sc62015_core::{collect_registers, CoreRuntime, TimerContext};
+use serde_json::{json, Map, Value};
+use std::collections::HashMap;
+
+pub struct Machine {
+    rt: CoreRuntime,
+    windows: Vec<(String, u32, u32)>,
+}
 
 #[derive(Default)]
-pub struct State {}
+pub struct State {
+    machines: HashMap<String, Machine>,
+}
 
-pub fn handle(verb: &str, _req: &Value, _st: &mut State) -> Value {
-    json!({"ok": false, "error": format!("c16.{verb} not implemented")})
+fn hex(bytes: &[u8]) -> String {
+    const T: &[u8; 16] = b"0123456789abcdef";
+    let mut s = String::with_capacity(bytes.len() * 2);
+    for b in bytes {
+        s.push(T[(b >> 4) as usize] as char);
+        s.push(T[(b & 15) as usize] as char);
+    }
+    s
+}
+
+fn unhex(s: &str) -> Vec<u8> {
+    let b = s.as_bytes();
+    let mut out = Vec::with_capacity(b.len() / 2);
+    let nib = |c: u8| -> u8 {
+        match c {
+            b'0'..=b'9' => c - b'0',
+            b'a'..=b'f' => c - b'a' + 10,
+            b'A'..=b'F' => c - b'A' + 10,
+            _ => 0,
+        }
+    };
+    let mut i = 0;
+    while i + 1 < b.len() {
+        out.push((nib(b[i]) << 4) | nib(b[i + 1]));
+        i += 2;
+    }
+    out
+}
+
+fn fnv64(bytes: &[u8]) -> String {
+    let mut h: u64 = 0xcbf2_9ce4_8422_2325;
+    for b in bytes {
+        h ^= *b as u64;
+        h = h.wrapping_mul(0x0000_0100_0000_01b3);
+    }
+    format!("{h:016x}")
+}
+
+fn power_name(p: PowerState) -> &'static str {
+    match p {
+        PowerState::Running => "running",
+        PowerState::Halted => "halted",
+        PowerState::Off => "off",
+    }
+}
+
+fn new_machine(req: &Value) -> Result<Machine, String> {
+    let cfg = req.get("cfg").cloned().unwrap_or_else(|| json!({}));
+    let mut rt = CoreRuntime::new();
+    let mut image = vec![0u8; 0x40000];
+    if let Some(chunks) = req.get("rom").and_then(|v| v.as_array()) {
+        for ch in chunks {
+            let addr = ch.get(0).and_then(|v| v.as_u64()).unwrap_or(0) as usize;
+            let data = unhex(ch.get(1).and_then(|v| v.as_str()).unwrap_or(""));
+            if addr < 0xC0000 || addr + data.len() > 0x100000 {
+                return Err(format!("rom chunk out of range: {addr:#x}+{}", data.len()));
+            }
+            image[addr - 0xC0000..addr - 0xC0000 + data.len()].copy_from_slice(&data);
+        }
+    }
+    rt.load_rom(&image, 0xC0000);
+    if let Some(card) = cfg.get("card") {
+        let size = get_u64(card, "size", 0) as usize;
+        if size > 0 {
+            let fill = get_u32(card, "fill", 0) as u8;
+            let data: Vec<u8> = (0..size).map(|i| fill.wrapping_add(i as u8)).collect();
+            rt.load_memory_card(&data).map_err(|e| format!("load_memory_card: {e}"))?;
+        }
+    }
+    rt.power_on_reset();
+    if let Some(t) = cfg.get("timer") {
+        let enabled = get_bool(t, "enabled", false);
+        let mti = get_u64(t, "mti", 0) as i32;
+        let sti = get_u64(t, "sti", 0) as i32;
+        // In-place assignment keeps the boxed address the IMR/ISR hook points at.
+        *rt.timer = TimerContext::new(enabled, mti, sti);
+    }
+    if let Some(regs) = cfg.get("regs").and_then(|v| v.as_object()) {
+        for (k, v) in regs {
+            rt.set_reg(k, v.as_u64().unwrap_or(0) as u32);
+        }
+    }
+    let mut windows = Vec::new();
+    if let Some(ws) = cfg.get("windows").and_then(|v| v.as_array()) {
+        for w in ws {
+            let name = w.get(0).and_then(|v| v.as_str()).unwrap_or("w").to_string();
+            let start = w.get(1).and_then(|v| v.as_u64()).unwrap_or(0) as u32;
+            let len = w.get(2).and_then(|v| v.as_u64()).unwrap_or(0) as u32;
+            windows.push((name, start, len));
+        }
+    }
+    Ok(Machine { rt, windows })
+}
+
+fn apply_events(m: &mut Machine, evs: Option<&Value>) {
+    let Some(list) = evs.and_then(|v| v.as_array()) else {
+        return;
+    };
+    for ev in list {
+        let kind = ev.get(0).and_then(|v| v.as_str()).unwrap_or("");
+        match kind {
+            "press" | "release" => {
+                let code = ev.get(2).and_then(|v| v.as_u64()).unwrap_or(0) as u8;
+                let rt = &mut m.rt;
+                if let Some(kb) = rt.keyboard.as_mut() {
+                    if kind == "press" {
+                        kb.press_matrix_code(code, &mut rt.memory);
+                    } else {
+                        kb.release_matrix_code(code, &mut rt.memory);
+                    }
+                }
+            }
+            "on_press" => m.rt.press_on_key(),
+            "on_release" => m.rt.release_on_key(),
+            _ => {}
+        }
+    }
+}
+
+fn peek(m: &Machine, start: u32, len: u32) -> Vec<u8> {
+    let r = m.rt.memory.memory_read_count();
+    let w = m.rt.memory.memory_write_count();
+    let mut out = Vec::with_capacity(len as usize);
+    for i in 0..len {
+        out.push(m.rt.memory.load(start + i, 8).unwrap_or(0) as u8);
+    }
+    m.rt.memory.set_memory_counts(r, w);
+    m.rt.memory.clear_overlay_logs();
+    out
+}
+
+fn observe(m: &Machine) -> Value {
+    let rt = &m.rt;
+    let mut regs = Map::new();
+    for name in ["PC", "BA", "I", "X", "Y", "U", "S", "F"] {
+        regs.insert(name.to_string(), json!(rt.get_reg(name)));
+    }
+    let mut win = Map::new();
+    for (name, start, len) in &m.windows {
+        win.insert(name.clone(), json!(hex(&peek(m, *start, *len))));
+    }
+    let mut lcd = json!(null);
+    if let Some(l) = rt.lcd.as_ref() {
+        let (meta, payload) = l.export_snapshot();
+        let mut chips = Vec::new();
+        if let Some(arr) = meta.get("chips").and_then(|v| v.as_array()) {
+            for c in arr {
+                chips.push(json!({
+                    "on": c.get("on").cloned().unwrap_or(Value::Null),
+                    "start_line": c.get("start_line").cloned().unwrap_or(Value::Null),
+                    "page": c.get("page").cloned().unwrap_or(Value::Null),
+                    "y_address": c.get("y_address").cloned().unwrap_or(Value::Null),
+                }));
+            }
+        }
+        lcd = json!({"chips": chips, "vram": fnv64(&payload)});
+    }
+    let mut kb = json!(null);
+    if let Some(k) = rt.keyboard.as_ref() {
+        let snap = k.snapshot_state();
+        let mut pressed = snap.pressed_keys.clone();
+        pressed.sort();
+        kb = json!({"fifo": k.fifo_snapshot(), "pressed": pressed});
+    }
+    let t = &rt.timer;
+    json!({
+        "regs": regs,
+        "imem": hex(rt.memory.internal_slice()),
+        "win": win,
+        "lcd": lcd,
+        "kb": kb,
+        "power": power_name(rt.state.power_state()),
+        "cycles": rt.cycle_count(),
+        "instr": rt.instruction_count(),
+        "irq": {"total": t.irq_total, "KEY": t.irq_key, "MTI": t.irq_mti, "STI": t.irq_sti,
+                 "last": [t.last_irq_src, t.last_irq_pc, t.last_irq_vector]},
+    })
+}
+
+/// Diagnostic probes (never part of a verdict; used to name what a restored machine is missing).
+fn diag(m: &Machine) -> Value {
+    let rt = &m.rt;
+    let t = &rt.timer;
+    let temps: Map<String, Value> = {
+        let mut v: Vec<(String, u32)> = collect_registers(&rt.state)
+            .into_iter()
+            .filter(|(k, v)| k.starts_with("TEMP") && *v != 0)
+            .collect();
+        v.sort();
+        v.into_iter().map(|(k, v)| (k, json!(v))).collect()
+    };
+    let kb_state = rt
+        .keyboard
+        .as_ref()
+        .and_then(|k| serde_json::to_string(&{
+            let mut s = k.snapshot_state();
+            s.pressed_keys.sort();
+            let mut ks: Vec<_> = s.key_states.iter().filter(|(_, v)| v.pressed || v.debounced || v.press_ticks != 0 || v.release_ticks != 0 || v.repeat_ticks != 0)
+                .map(|(k, v)| format!("{k}:{}:{}:{}:{}:{}", v.pressed, v.debounced, v.press_ticks, v.release_ticks, v.repeat_ticks)).collect();
+            ks.sort();
+            json!({"kol": s.kol, "koh": s.koh, "fifo_len": s.fifo_len, "fifo": s.fifo,
+                   "head": s.head, "tail": s.tail, "irq_count": s.irq_count, "strobe_count": s.strobe_count,
+                   "pressed": s.pressed_keys, "keys": ks, "hist": s.column_histogram,
+                   "thresholds": [s.press_threshold, s.release_threshold, s.repeat_delay, s.repeat_interval],
+                   "active_high": s.columns_active_high, "scan_enabled": s.scan_enabled,
+                   "kil_reads": s.kil_read_count})
+        }).ok())
+        .unwrap_or_default();
+    let mut card = String::new();
+    for ov in rt.overlays() {
+        if let Some(d) = ov.data.as_ref() {
+            card.push_str(&format!("{}:{};", ov.name, fnv64(d)));
+        }
+    }
+    json!({
+        "power_state": power_name(rt.state.power_state()),
+        "timer_enabled": t.enabled,
+        "mti_period": t.mti_period,
+        "sti_period": t.sti_period,
+        "next_mti": t.next_mti,
+        "next_sti": t.next_sti,
+        "kb_irq_enabled": t.kb_irq_enabled,
+        "irq_pending": t.irq_pending,
+        "irq_source": t.irq_source,
+        "irq_imr_mirror": t.irq_imr,
+        "irq_isr_mirror": t.irq_isr,
+        "in_interrupt": t.in_interrupt,
+        "interrupt_stack": t.interrupt_stack,
+        "next_interrupt_id": t.next_interrupt_id,
+        "key_irq_latched": t.key_irq_latched,
+        "delivered_masks": t.delivered_masks,
+        "call_depth": rt.state.call_depth(),
+        "call_sub_level": rt.state.call_sub_level(),
+        "temps": temps,
+        "kb_state": kb_state,
+        "overlay_data": card,
+        "fast_mode": rt.fast_mode,
+        "ext_hash": fnv64(rt.memory.external_slice()),
+    })
+}
+
+fn step_once(m: &mut Machine) -> Option<String> {
+    match m.rt.step(1) {
+        Ok(()) => None,
+        Err(e) => Some(format!("{e}")),
+    }
+}
+
+fn events_at<'a>(evs: Option<&'a Value>, j: u64) -> Option<&'a Value> {
+    evs.and_then(|e| e.get(j.to_string()))
+}
+
+fn do_op(op: &Value, st: &mut State) -> Value {
+    let kind = get_str(op, "op", "");
+    let id = get_str(op, "id", "").to_string();
+    match kind {
+        "new" => match new_machine(op) {
+            Ok(m) => {
+                st.machines.insert(id, m);
+                json!({"ok": true})
+            }
+            Err(e) => err(e),
+        },
+        "drop" => {
+            st.machines.remove(&id);
+            json!({"ok": true})
+        }
+        "drop_all" => {
+            st.machines.clear();
+            json!({"ok": true})
+        }
+        "pack" => {
+            let mut regs: HashMap<String, u32> = HashMap::new();
+            if let Some(o) = op.get("regs").and_then(|v| v.as_object()) {
+                for (k, v) in o {
+                    regs.insert(k.clone(), v.as_u64().unwrap_or(0) as u32);
+                }
+            }
+            json!({"ok": true, "blob": hex(&pack_registers(&regs))})
+        }
+        "unpack" => match unpack_registers(&unhex(get_str(op, "blob", ""))) {
+            Ok(r) => json!({"ok": true, "regs": r}),
+            Err(e) => json!({"ok": true, "err": format!("{e}")}),
+        },
+        _ => {
+            let Some(m) = st.machines.get_mut(&id) else {
+                return err(format!("no machine {id}"));
+            };
+            match kind {
+                "events" => {
+                    apply_events(m, op.get("ev"));
+                    json!({"ok": true})
+                }
+                "step" => json!({"ok": true, "err": step_once(m)}),
+                "obs" => json!({"ok": true, "obs": observe(m)}),
+                "diag" => json!({"ok": true, "diag": diag(m)}),
+                "peek" => {
+                    let start = get_u32(op, "start", 0);
+                    let len = get_u32(op, "len", 0);
+                    json!({"ok": true, "data": hex(&peek(m, start, len))})
+                }
+                "lcd_full" => {
+                    let (meta, payload) = m
+                        .rt
+                        .lcd
+                        .as_ref()
+                        .map(|l| l.export_snapshot())
+                        .unwrap_or((Value::Null, Vec::new()));
+                    json!({"ok": true, "meta": meta, "vram": hex(&payload)})
+                }
+                "kb_full" => {
+                    let v = m
+                        .rt
+                        .keyboard
+                        .as_ref()
+                        .and_then(|k| serde_json::to_value(k.snapshot_state()).ok())
+                        .unwrap_or(Value::Null);
+                    json!({"ok": true, "kb": v})
+                }
+                "save" => {
+                    let path = get_str(op, "path", "");
+                    match m.rt.save_snapshot(std::path::Path::new(path)) {
+                        Ok(()) => json!({"ok": true, "err": null}),
+                        Err(e) => json!({"ok": true, "err": format!("{e}")}),
+                    }
+                }
+                "load" => {
+                    let path = get_str(op, "path", "");
+                    match m.rt.load_snapshot(std::path::Path::new(path)) {
+                        Ok(()) => json!({"ok": true, "err": null}),
+                        Err(e) => json!({"ok": true, "err": format!("{e}")}),
+                    }
+                }
+                // run steps [from, to): before step j apply events[j]; optional save before the events of
+                // each step j <= save_upto into <save_prefix><j>.pcsnap; observation after every step.
+                "run" => {
+                    let from = get_u64(op, "from", 0);
+                    let to = get_u64(op, "to", 0);
+                    let evs = op.get("events");
+                    let save_prefix = op.get("save_prefix").and_then(|v| v.as_str());
+                    let save_upto = get_u64(op, "save_upto", 0);
+                    let want_diag = get_bool(op, "diag", false);
+                    let mut obs = Vec::new();
+                    let mut diags = Vec::new();
+                    let mut save_errs = Vec::new();
+                    let mut j = from;
+                    loop {
+                        if let Some(pre) = save_prefix {
+                            if j <= save_upto {
+                                let p = format!("{pre}{j}.pcsnap");
+                                if let Err(e) = m.rt.save_snapshot(std::path::Path::new(&p)) {
+                                    save_errs.push(json!([j, format!("{e}")]));
+                                }
+                                if want_diag {
+                                    diags.push(diag(m));
+                                }
+                            }
+                        }
+                        if j >= to {
+                            break;
+                        }
+                        apply_events(m, events_at(evs, j));
+                        let e = step_once(m);
+                        let mut o = observe(m);
+                        if let Some(msg) = e {
+                            o.as_object_mut().unwrap().insert("err".into(), json!(msg));
+                        }
+                        obs.push(o);
+                        j += 1;
+                    }
+                    json!({"ok": true, "obs": obs, "diags": diags, "save_errs": save_errs})
+                }
+                _ => err(format!("unknown c16 op {kind}")),
+            }
+        }
+    }
+}
+
+pub fn handle(verb: &str, req: &Value, st: &mut State) -> Value {
+    match verb {
+        "ops" => {
+            let mut results = Vec::new();
+            if let Some(ops) = req.get("ops").and_then(|v| v.as_array()) {
+                for op in ops {
+                    results.push(do_op(op, st));
+                }
+            }
+            json!({"ok": true, "results": results})
+        }
+        _ => err(format!("c16.{verb} not implemented")),
+    }
 }
